@@ -3,10 +3,13 @@
 package vlib
 
 import (
+	"bytes"
+	"compress/gzip"
 	"crypto/sha1"
 	"encoding/hex"
 	"encoding/json"
 	"fmt"
+	"io"
 	"os"
 	"path/filepath"
 	"sort"
@@ -32,6 +35,60 @@ type Project struct {
 	// FixedDir: the project is written to (and built from) this named directory of the work area instead of a fresh one:
 	// consecutive builds then use the same file paths (the directory is emptied first).
 	FixedDir string `json:"fixed_dir,omitempty"`
+}
+
+// Large files (megabytes of one repeated byte: nesting bombs) are stored gzip-compressed under "files_gz" in the JSON
+// form, so that a replay file stays small; everything else sees plain Files.
+const gzThreshold = 64 << 10
+
+type projectPlain Project
+
+type projectJSON struct {
+	*projectPlain
+	Files   map[string][]byte `json:"files"`
+	FilesGz map[string][]byte `json:"files_gz,omitempty"`
+}
+
+func (p *Project) MarshalJSON() ([]byte, error) {
+	out := projectJSON{projectPlain: (*projectPlain)(p), Files: map[string][]byte{}}
+	for n, b := range p.Files {
+		if len(b) < gzThreshold {
+			out.Files[n] = b
+			continue
+		}
+		var buf bytes.Buffer
+		w := gzip.NewWriter(&buf)
+		_, _ = w.Write(b)
+		_ = w.Close()
+		if out.FilesGz == nil {
+			out.FilesGz = map[string][]byte{}
+		}
+		out.FilesGz[n] = buf.Bytes()
+	}
+	return json.Marshal(out)
+}
+
+func (p *Project) UnmarshalJSON(data []byte) error {
+	in := projectJSON{projectPlain: (*projectPlain)(p)}
+	if err := json.Unmarshal(data, &in); err != nil {
+		return err
+	}
+	p.Files = in.Files
+	if p.Files == nil {
+		p.Files = map[string][]byte{}
+	}
+	for n, z := range in.FilesGz {
+		r, err := gzip.NewReader(bytes.NewReader(z))
+		if err != nil {
+			return err
+		}
+		b, err := io.ReadAll(r)
+		if err != nil {
+			return err
+		}
+		p.Files[n] = b
+	}
+	return nil
 }
 
 func SingleFile(data []byte) *Project {
